@@ -38,3 +38,21 @@ Print Assumptions C06_any_exchange_sequence_sound.
 Theorem C06_idle_pass_is_fixpoint : forall gt prog l, fst (cx_run gt prog l) = 0 -> snd (cx_run gt prog l) = l.
 Proof. exact cx_pass_fixpoint. Qed.
 Print Assumptions C06_idle_pass_is_fixpoint.
+
+(* ... and the regenerated programs sort (SortThm.v): alpha (even index) before beta (odd index); descending index;
+   ascending index *)
+From Coq Require Import Sorted.
+Theorem C06_source_paritysort_list_sorts : forall mode l,
+  StronglySorted (fun x y => Nat.modulo (mode x) 2 <= Nat.modulo (mode y) 2) (snd (py_paritysort_list mode l)).
+Proof. exact py_paritysort_list_sorts_key. Qed.
+Print Assumptions C06_source_paritysort_list_sorts.
+
+Theorem C06_source_reverse_bubble_list_sorts : forall mode l,
+  StronglySorted (fun x y => mode y <= mode x) (snd (py_reverse_bubble_list mode l)).
+Proof. exact py_reverse_bubble_list_sorts_key. Qed.
+Print Assumptions C06_source_reverse_bubble_list_sorts.
+
+Theorem C06_source_bubblesort_sorts : forall mode l,
+  StronglySorted (fun x y => mode x <= mode y) (snd (py_bubblesort mode l)).
+Proof. exact py_bubblesort_sorts_key. Qed.
+Print Assumptions C06_source_bubblesort_sorts.
